@@ -440,6 +440,9 @@ func processInitSegment(log *slog.Logger, ch *channel, s stream, data []byte, is
 		return nil, fmt.Errorf("failed to decode init segment: %w", err)
 	}
 	init := iSeg.Init
+	if init == nil || init.Ftyp == nil || init.Moov == nil {
+		return nil, fmt.Errorf("no complete init segment (ftyp + moov) found")
+	}
 	err = ch.addInitDataAndUpdateTimescale(s, init)
 	if err != nil {
 		return nil, fmt.Errorf("failed to addInitData: %w", err)
